@@ -23,7 +23,7 @@ structure Desc where
   shape : List Nat := []
   tnum  : Nat := 0
   nnz   : Nat := 0
-deriving Repr, Inhabited
+deriving Repr, Inhabited, DecidableEq
 
 abbrev Env := String → Desc
 
@@ -45,6 +45,7 @@ inductive Atom
   | minDimLeMax (o f : String)              -- `np.min(o.shape) <= f.max()`  (the maximum of `f` is `(env f).ival`)
   | lenGeDimAt (w f ax : String)            -- negation of `len(w) < f.shape[ax]`
   | whenArr (x : String) (inner : Atom)     -- `inner`, met only on a path every ndarray `x` takes
+  | intGe (a : String) (c : Int)            -- `a >= c`
 deriving Repr, Inhabited
 
 def isArr (d : Desc) : Bool := d.kind == 1
@@ -86,6 +87,7 @@ def Atom.rejects (env : Env) : Atom → Bool
         decide ((env ax).ival.toNat < (env f).shape.length) &&
         decide ((env w).shape.getD 0 0 < (env f).shape.getD (env ax).ival.toNat 0))
   | .whenArr x inner => isArr (env x) && inner.rejects env
+  | .intGe a c => isInt (env a) && decide ((env a).ival ≥ c)
 
 /-- all guards pass (no atom raises) -/
 def passes (gs : List Atom) (env : Env) : Bool := gs.all (fun g => !g.rejects env)
@@ -169,5 +171,70 @@ def nfirstReject (gs : List NAtom) (env : Env) : Option Nat :=
     the kernel is not reached; not an exception). -/
 def actionIsException (a : Nat) : Bool := a == 0 || a == 1 || a == 2
 def actionIsEarlyReturn (a : Nat) : Bool := a == 4
+
+/-! ### wrapper → native argument links (round 3; extracted by translator/links.py into `Generated.argLinkTable`)
+
+What a Python wrapper passes for one parameter of a native entry point, relative to the wrapper's OWN parameters (the
+caller's arguments). `Link.holds` is the meaning of each class: what is known about the descriptor `d` of the object the
+native entry point receives, given the descriptors `envW` of the caller's arguments. The meanings of the conversion
+classes are facts about numpy (`astype`, `np.asarray`, `np.asanyarray`, `np.array` without `ndmin`, `np.require`, `.copy`
+keep rank and shape; `np.ascontiguousarray`/`np.asfortranarray` keep them for rank ≥ 1; `.view(dtype)` keeps the rank) and
+about two helpers (`_get_output`: the given `out`, checked to have the shape of the reference array and to be
+contiguous, else `np.empty(shape, dtype)`; `get_structuring_elem`: an ndarray of the rank of the reference array with at
+least one element). They are tied to the real code by the `links` cases of harness/props/c11.py, which capture the
+arguments the real wrappers hand to the entry points. -/
+
+inductive Link
+  | pass (p : String)              -- the caller's argument itself, not stored into before the call
+  | norm (p : String)              -- a conversion/copy of it (or the object itself after a store) with the same rank and shape
+  | norm1 (p : String)             -- `np.ascontiguousarray`/`np.asfortranarray`: the same shape for rank ≥ 1
+  | view (p : String)              -- `.view(dtype)` (possibly after conversions): the same rank
+  | output (like out : String)     -- `_get_output(X, out, …)`, X a pass/norm of `like`
+  | fresh (like : String)          -- `np.empty/zeros(X.shape, …)`, `np.empty_like/zeros_like(X)`
+  | structElem (a bc : String)     -- `get_structuring_elem(X, bc)`, X of the shape of `a`
+  | const (v : Int)                -- an integer / Boolean literal
+  | noneLit                        -- the literal `None`
+  | intOf (p : String)             -- `int(p)`
+  | lookup (table p : String)      -- `table[p]` for a module-level dictionary of integers (`mode2int[mode]`)
+  | zeroFrame (r c : String)       -- `np.zeros((r + 2, c + 2), bool)` into which only `[1:r + 1, 1:c + 1]` has been stored
+  | other (txt : String)           -- anything else: nothing is known
+deriving Repr, Inhabited, DecidableEq
+
+/-- the meaning of a link (decidable, so that the driver can evaluate it on the descriptors of real arguments) -/
+def Link.holds (tables : List (String × List Int)) (envW : Env) (d : Desc) : Link → Bool
+  | .pass p => decide (d = envW p)
+  | .norm p => !isArr (envW p) || (isArr d && decide (d.ndim = (envW p).ndim) && decide (d.shape = (envW p).shape))
+  | .norm1 p => !isArr (envW p) ||
+      (isArr d && (!decide (1 ≤ (envW p).ndim) || (decide (d.ndim = (envW p).ndim) && decide (d.shape = (envW p).shape))))
+  | .view p => !isArr (envW p) || (isArr d && decide (d.ndim = (envW p).ndim))
+  | .output l _ => !isArr (envW l) ||
+      (isArr d && decide (d.ndim = (envW l).ndim) && decide (d.shape = (envW l).shape) && d.isContig)
+  | .fresh l => !isArr (envW l) ||
+      (isArr d && decide (d.ndim = (envW l).ndim) && decide (d.shape = (envW l).shape) && d.isCArray)
+  | .structElem a _ => !isArr (envW a) ||
+      (isArr d && decide (d.ndim = (envW a).ndim) && decide (d.ndim = d.shape.length) && decide (0 < d.size))
+  | .const v => isInt d && decide (d.ival = v)
+  | .noneLit => d.kind == 0
+  | .intOf p => !isInt (envW p) || (isInt d && decide (d.ival = (envW p).ival))
+  | .lookup t _ => isInt d && tables.any (fun e => e.1 == t && e.2.contains d.ival)
+  | .zeroFrame _ _ => isArr d && decide (d.ndim = 2) && decide (d.shape.length = 2) &&
+      decide (2 ≤ d.shape.getD 0 0) && decide (2 ≤ d.shape.getD 1 0)
+  | .other _ => true
+
+/-- the native environment `envN` is linked to the wrapper environment `envW` by the extracted links of one call site -/
+def Linked (tables : List (String × List Int)) (links : List (String × Link)) (envW envN : Env) : Bool :=
+  links.all fun pl => pl.2.holds tables envW (envN pl.1)
+
+/-- index of the first native parameter whose link does not hold -/
+def firstUnlinked (tables : List (String × List Int)) (links : List (String × Link)) (envW envN : Env) : Option Nat :=
+  (links.zipIdx.find? (fun pl => !pl.1.2.holds tables envW (envN pl.1.1))).map (·.2)
+
+/-- a value a guard helper has checked (its parameter `h`, descriptor in `envH`) reaches the native parameter `n`
+    (descriptor in `envN`): kind 0 the very object, kind 1 `int(·)` of it -/
+def flowHolds (envH envN : Env) (f : String × String × Nat) : Bool :=
+  if f.2.2 == 0 then decide (envN f.2.1 = envH f.1)
+  else !isInt (envH f.1) || (isInt (envN f.2.1) && decide ((envN f.2.1).ival = (envH f.1).ival))
+
+def Flows (flows : List (String × String × Nat)) (envH envN : Env) : Bool := flows.all (flowHolds envH envN)
 
 end Mahotas.C11
